@@ -61,6 +61,11 @@ Get(i) ==
      /\ res' = a.r /\ UNCHANGED <<tree, seq, nextId, ctree, cseq>>
      /\ Step(<<"get", i>>)
 
+\* a type change touches the root's extra data only: content and shape unchanged (C01: "type changes")
+SetType(ti) ==
+  /\ WithReads /\ res' = Ok(0) /\ UNCHANGED <<tree, seq, nextId, ctree, cseq>>
+  /\ Step(<<"settype", ti>>)
+
 Pop ==
   /\ N > 0 /\ AllowPop
   /\ seq' = <<>> /\ tree' = TPop(tree) /\ res' = Ok(0) /\ UNCHANGED <<nextId, ctree, cseq>>
@@ -91,6 +96,7 @@ Next ==
   \/ \E i \in (0..(IF WithReads THEN N ELSE N - 1)) \cup Big, s \in Sizes : Set(i, s)
   \/ ~Growing /\ \E i \in (0..(IF WithReads THEN N ELSE N - 1)) \cup Big : Remove(i)
   \/ WithReads /\ \E i \in (0..N) \cup Big : Get(i)
+  \/ \E ti \in {43, 44} : SetType(ti)
   \/ Pop
   \/ \E m \in {"det", "nondet"}, w \in {1, 3} : Commit(m, w)
   \/ DropCache \/ Crash
